@@ -597,6 +597,18 @@ class VM:
             return hit[1]
         return None
 
+    def unsupported_alt(self, s, exc):
+        """an alternative of a lifted operation hit an unsupported construct: if it is provably infeasible it is
+        skipped; otherwise it becomes an obligation of its own (must be unsat) and only that alternative is dropped"""
+        g = AND(s.guard, s.cg)
+        if g is FALSE:
+            return
+        if self.use_solver:
+            if self.feasible(g):
+                raise exc
+            return
+        self.unsupported.append((g, str(exc)[:300], s.where()))
+
     def note_access(self, s, obj, name, is_write):
         if self.access_log is not None:
             self.access_log.append((s.tid, obj, name, is_write, s.held))
